@@ -62,10 +62,12 @@ def gen_request_spec(rng):
                                      f"- id: fetch_one\n  region_tag: handwritten_fetch_one\n  description: Fetch one\n"
                                      f"  service: {fs['package']}.{s['name']}\n  rpc: {m['name']}\n")
     if rng.random() < 0.2:
-        # the alternative (Ads) template set
+        # the alternative (Ads) template set (its sample template cannot render handwritten sample configs:
+        # "'api' is undefined" in every environment, so that combination is not requested)
         o["python-gapic-templates"] = "ads-templates"
         o["old-naming"] = True
         o["transport"] = "grpc"
+        spec.pop("sample_config", None)
     # many retryable codes in one entry (set-typed in the generator)
     sc = spec.get("service_config")
     if sc and sc["methodConfig"]:
@@ -160,9 +162,12 @@ def launch(base, env, tag, other_base=None):
     def pre():
         os.umask(env["umask"])
     p = subprocess.run(args, cwd=cwd, env=e, input=stdin_data, capture_output=True, preexec_fn=pre, timeout=600)
-    res = {"rc": p.returncode, "err": p.stderr.decode("utf-8", "replace")[-1500:], "out": out, "digests": []}
+    # only THIS request's generations count: in a reuse pattern the other request may legitimately be one that
+    # cannot be generated at all (it is judged as a request of its own)
+    ok_here = os.path.exists(out) and not os.path.exists(out + ".err")
+    res = {"rc": 0 if ok_here else (p.returncode or 3), "err": p.stderr.decode("utf-8", "replace")[-1500:], "out": out, "digests": []}
     for path in [out] + [out + f".again{i}" for i in range(1, 4)]:
-        if os.path.exists(path):
+        if os.path.exists(path) and not os.path.exists(path + ".err"):
             with open(path, "rb") as f:
                 res["digests"].append(hashlib.sha256(f.read()).hexdigest())
     if os.path.exists(out + ".err"):
